@@ -59,6 +59,7 @@ SESSION = session_uuid(0, 1)
 A0, H0 = REGION_ADDRS[0], REGION_HANDLES[0]
 A1, H1 = ("10.0.0.7", 13007), (1007 << 40) | (1000 << 8)
 A2, H2 = ("10.0.0.7", 13008), (1008 << 40) | (1000 << 8)   # same host as A1, other port
+A3, H3 = ("10.0.0.9", 13009), (1009 << 40) | (1000 << 8)
 EQ_URL = cap_url(0, 0, "EventQueueGet")
 
 #: region-announcing kinds: name -> (wire kind, addr, handle, seed)
@@ -68,10 +69,16 @@ ANNOUNCE = {
     "tf": ("tf", A1, H1, "http://sim7.test:12043/cap/seed-b"),
     "cr": ("cr", A2, H2, "http://sim8.test:12043/cap/seed-c"),
     "tf0": ("tf", A0, H0, "https://sim0.test:12043/cap/seed-again"),
+    # the region with handle H1 restarted on another simhost: same handle, new address (the old entry is never removed)
+    "es_mv": ("es", A3, H1, None),
+    "tf_mv": ("tf", A3, H1, "http://sim9.test:12043/cap/seed-d"),
+    # the address A1 now hosts a different region
+    "es_h3": ("es", A1, H3, None),
 }
 SIM_MENU: Dict[str, Tuple[str, ...]] = {
     "p": ("p",), "t": ("t",), "pt": ("p", "t"),
     "eac": ("eac",), "es": ("es",), "tf": ("tf",), "cr": ("cr",), "tf0": ("tf0",),
+    "es_mv": ("es_mv",), "tf_mv": ("tf_mv",), "es_h3": ("es_h3",),
     "eac+es": ("eac", "es"), "tf+tf": ("tf", "tf"), "es+cr": ("es", "cr"), "p+eac": ("p", "eac"),
 }
 STATUS_BODIES = {
@@ -189,29 +196,42 @@ class SwallowAddon:
         return None
 
 
-class Model:
+class RegionModel:
+    """Reference model of one region's event queue."""
+
     def __init__(self):
         self.ack: Optional[int] = None
         self.prev: Optional[Dict[str, Any]] = None     # {"ack":..., "body": normalised body or None} of the preceding poll
         self.next_id = 1
-        self.inj_n = 0
         self.pending: List[Tuple[int, str]] = []       # (tag, kind) injected and not yet delivered
         self.optional: List[Tuple[int, str]] = []      # dropped by a teardown: may never show up twice, need not show up
         self.inj_since_poll = 0
-        self.regions: Dict[Tuple[str, int], List[Any]] = {A0: [H0, seed_url(0, 0)]}
-        self.vetoed_only: set = set()                  # addresses only ever announced in swallowed events
-        self.ever: Dict[Any, str] = {}                 # every event key ever sent / injected -> "sim" | "inj"
         self.torn_down = 0
 
 
+class Model:
+    """Session-level part of the reference model."""
+
+    def __init__(self, n_regions: int):
+        self.inj_n = 0
+        self.regions: Dict[Tuple[str, int], List[Any]] = {
+            REGION_ADDRS[i]: [REGION_HANDLES[i], seed_url(0, i)] for i in range(n_regions)}
+        self.vetoed_only: set = set()                  # addresses only ever announced in swallowed events
+        self.ever: Dict[Any, Any] = {}                 # every event key ever sent / injected -> ("sim"|"inj", region index)
+
+
 class World:
-    def __init__(self):
+    def __init__(self, n_regions: int = 1):
         self.addon = SwallowAddon()
-        self.env = Env(n_sessions=1, n_regions=1, addons=[self.addon])
+        self.env = Env(n_sessions=1, n_regions=n_regions, addons=[self.addon])
         self.session = self.env.sessions[0]
-        self.region = self.session.regions[0]
-        self.region.update_caps({"EventQueueGet": EQ_URL})
-        self.m = Model()
+        self.eq_regions = list(self.session.regions[:n_regions])     # the regions whose event queues the viewer polls
+        self.eq_urls = [cap_url(0, i, "EventQueueGet") for i in range(n_regions)]
+        for region, url in zip(self.eq_regions, self.eq_urls):
+            region.update_caps({"EventQueueGet": url})
+        self.region = self.eq_regions[0]
+        self.m = Model(n_regions)
+        self.rm = [RegionModel() for _ in range(n_regions)]
         self.violations: List[Dict[str, Any]] = []
         self.last_obs: Any = None
         self.flags: set = set()
@@ -222,18 +242,19 @@ class Harness:
 
     def __init__(self, sims: Tuple[str, ...], statuses: Tuple[str, ...] = ("502", "499", "404"), undef: bool = True,
                  inject: Tuple[str, ...] = ("ev", "msg"), teardown: bool = True, rep: bool = True, lost: bool = True,
-                 label: str = ""):
+                 label: str = "", n_regions: int = 1, swallows: Tuple[str, ...] = ("none", "first", "all")):
         self.sims, self.statuses, self.undef = tuple(sims), tuple(statuses), undef
         self.inject, self.teardown, self.rep, self.lost = tuple(inject), teardown, rep, lost
-        self.label = label
+        self.label, self.n_regions, self.swallows = label, n_regions, tuple(swallows)
 
     def config(self) -> Dict[str, Any]:
         return {"sims": list(self.sims), "statuses": list(self.statuses), "undef": self.undef, "inject": list(self.inject),
-                "teardown": self.teardown, "rep": self.rep, "lost": self.lost}
+                "teardown": self.teardown, "rep": self.rep, "lost": self.lost, "n_regions": self.n_regions,
+                "swallows": list(self.swallows)}
 
     # ------------------------------------------------------------------------------------------ explorer API
     def fresh(self) -> World:
-        return World()
+        return World(self.n_regions)
 
     def deviation(self, ev) -> int:
         if ev[0] == "teardown":
@@ -242,46 +263,58 @@ class Harness:
             return int(ev[1] == "rep") + int(ev[2] in STATUS_BODIES) + int(ev[4] == "lost")
         return 0
 
+    def _r(self, *tail) -> tuple:
+        """Events of the single-region searches keep their short form (region 0 implied)."""
+        return tuple(tail)
+
     def enabled(self, w: World):
-        m = w.m
         evs: List[tuple] = []
-        ackmodes = ["cur"]
-        if self.rep and m.prev is not None and m.prev["ack"] != m.ack:
-            ackmodes.append("rep")
-        for am in ackmodes:
-            ack = m.ack if am == "cur" else m.prev["ack"]
-            replay = m.prev is not None and m.prev["ack"] == ack and m.prev["body"] is not None
-            if replay:
-                evs.append(("poll", am, self.sims[0], "none", "ok"))
-                if self.lost:
-                    evs.append(("poll", am, self.sims[0], "none", "lost"))
-                continue
-            for sim in self.sims:
-                k = len(SIM_MENU[sim])
-                for sw in (("none", "all") if k == 1 else ("none", "first", "all")):
-                    evs.append(("poll", am, sim, sw, "ok"))
-                    emptied = sw == "all" and not m.pending
-                    if self.lost and not emptied:
-                        evs.append(("poll", am, sim, sw, "lost"))
-            if self.undef:
-                evs.append(("poll", am, "undef", "none", "ok"))
-            for st in self.statuses:
-                evs.append(("poll", am, st, "none", "ok"))
-        if m.inj_since_poll < 2:
-            for kind in self.inject:
-                evs.append(("inject", kind))
-        if self.teardown and m.torn_down < 1:
-            evs.append(("teardown",))
+        for r in range(self.n_regions):
+            m = w.rm[r]
+            suffix = (r,) if self.n_regions > 1 else ()
+            ackmodes = ["cur"]
+            if self.rep and m.prev is not None and m.prev["ack"] != m.ack:
+                ackmodes.append("rep")
+            for am in ackmodes:
+                ack = m.ack if am == "cur" else m.prev["ack"]
+                replay = m.prev is not None and m.prev["ack"] == ack and m.prev["body"] is not None
+                if replay:
+                    evs.append(("poll", am, self.sims[0], "none", "ok") + suffix)
+                    if self.lost:
+                        evs.append(("poll", am, self.sims[0], "none", "lost") + suffix)
+                    continue
+                for sim in self.sims:
+                    k = len(SIM_MENU[sim])
+                    for sw in (("none", "all") if k == 1 else ("none", "first", "all")):
+                        if sw not in self.swallows:
+                            continue
+                        evs.append(("poll", am, sim, sw, "ok") + suffix)
+                        emptied = sw == "all" and not m.pending
+                        if self.lost and not emptied:
+                            evs.append(("poll", am, sim, sw, "lost") + suffix)
+                if self.undef:
+                    evs.append(("poll", am, "undef", "none", "ok") + suffix)
+                for st in self.statuses:
+                    evs.append(("poll", am, st, "none", "ok") + suffix)
+            if m.inj_since_poll < 2:
+                for kind in self.inject:
+                    evs.append(("inject", kind) + suffix)
+            if self.teardown and m.torn_down < 1:
+                evs.append(("teardown",) + suffix)
         return evs
 
     def canon(self, w: World):
-        m, eq = w.m, w.region.eq_manager
+        g = w.m
         regions = tuple((r.circuit_addr, r.handle, tuple(u for n, (t, u) in r.caps.items() if n == "Seed"),
                          bool(r.circuit and r.circuit.is_alive)) for r in w.session.regions)
-        return (tuple(norm(e) for e in eq._queued_events), eq._last_ack, norm(eq._last_payload), regions,
-                m.ack, (m.prev["ack"], m.prev["body"]) if m.prev else None, m.next_id, m.inj_n, tuple(m.pending),
-                tuple(m.optional), m.inj_since_poll, tuple((a, tuple(v)) for a, v in m.regions.items()),
-                tuple(sorted(m.vetoed_only)), m.torn_down)
+        per_region = []
+        for region, m in zip(w.eq_regions, w.rm):
+            eq = region.eq_manager
+            per_region.append((tuple(norm(e) for e in eq._queued_events), eq._last_ack, norm(eq._last_payload),
+                               m.ack, (m.prev["ack"], m.prev["body"]) if m.prev else None, m.next_id, tuple(m.pending),
+                               tuple(m.optional), m.inj_since_poll, m.torn_down))
+        return (tuple(per_region), regions, g.inj_n, tuple((a, tuple(v)) for a, v in g.regions.items()),
+                tuple(sorted(g.vetoed_only)))
 
     def observe(self, w: World):
         return w.last_obs
@@ -296,40 +329,40 @@ class Harness:
         w.flags = set()
         kind = ev[0]
         if kind == "inject":
-            self._inject(w, ev[1])
+            self._inject(w, ev[1], ev[2] if len(ev) > 2 else 0)
         elif kind == "teardown":
-            self._teardown(w)
+            self._teardown(w, ev[1] if len(ev) > 1 else 0)
         elif kind == "poll":
-            self._poll(w, ev[1], ev[2], ev[3], ev[4])
+            self._poll(w, ev[1], ev[2], ev[3], ev[4], ev[5] if len(ev) > 5 else 0)
         else:
             raise ValueError(ev)
 
     def _bad(self, w: World, clause: str, site: str, detail: str):
         w.violations.append({"clause": clause, "site": site, "detail": detail})
 
-    def _inject(self, w: World, kind: str):
-        m = w.m
-        m.inj_n += 1
-        tag = m.inj_n
+    def _inject(self, w: World, kind: str, r: int):
+        g, m, region = w.m, w.rm[r], w.eq_regions[r]
+        g.inj_n += 1
+        tag = g.inj_n
         before = len(w.env.transport.packets)
         try:
             if kind == "ev":
-                w.region.eq_manager.inject_event(injected_wire("ev", tag))
+                region.eq_manager.inject_event(injected_wire("ev", tag))
             else:
-                w.region.eq_manager.inject_message(injected_message(tag))
+                region.eq_manager.inject_message(injected_message(tag))
         except Exception as e:
             self._bad(w, "inject-raises", "EventQueueManager.inject_" + ("event" if kind == "ev" else "message"),
-                      f"injection {tag} ({kind}) raised {e!r}")
+                      f"injection {tag} ({kind}) into region {r} raised {e!r}")
         m.pending.append((tag, kind))
-        m.ever[wire_norm(injected_wire(kind, tag))] = "inj"
+        g.ever[wire_norm(injected_wire(kind, tag))] = ("inj", r)
         m.inj_since_poll += 1
         w.last_obs = ("inject", kind, len(w.env.transport.packets) - before)
         w.flags.add("inject")
 
-    def _teardown(self, w: World):
-        m = w.m
-        w.region.mark_dead()
-        w.session.open_circuit(CLIENT_ADDR, w.region.circuit_addr, w.env.transport)
+    def _teardown(self, w: World, r: int):
+        m, region = w.rm[r], w.eq_regions[r]
+        region.mark_dead()
+        w.session.open_circuit(CLIENT_ADDR, region.circuit_addr, w.env.transport)
         m.optional += m.pending
         m.pending = []
         m.ack, m.prev, m.inj_since_poll = None, None, 0
@@ -337,12 +370,12 @@ class Harness:
         w.last_obs = ("teardown",)
         w.flags.add("teardown")
 
-    def _poll(self, w: World, ackmode: str, sim: str, swallow: str, delivery: str):
-        m, env = w.m, w.env
+    def _poll(self, w: World, ackmode: str, sim: str, swallow: str, delivery: str, r: int):
+        m, env = w.rm[r], w.env
         w.addon.arm("none")
         ack = m.ack if ackmode == "cur" else m.prev["ack"]
         oblig = m.prev is not None and m.prev["ack"] == ack and m.prev["body"] is not None
-        flow = env.new_flow(EQ_URL, "POST", llsd.format_xml({"ack": ack, "done": False}),
+        flow = env.new_flow(w.eq_urls[r], "POST", llsd.format_xml({"ack": ack, "done": False}),
                             headers=[("Content-Type", "application/llsd+xml")])
         env.mitm_request(flow)
         exc = env.pump()
@@ -357,15 +390,15 @@ class Harness:
                       f"poll repeats ack {ack!r} of the previous poll whose answer carried a body, but the simulator was asked again")
         if faked and not oblig:
             self._bad(w, "spurious-replay", SITE_CACHE,
-                      f"poll with ack {ack!r} (previous poll: {m.prev and m.prev['ack']!r}) was answered from the replay cache: "
-                      f"{flow.response.content[:200]!r}")
+                      f"region {r}: poll with ack {ack!r} (previous poll: {m.prev and m.prev['ack']!r}) was answered from the "
+                      f"replay cache: {flow.response.content[:200]!r}")
         exp_kind, exp_body, ctx = None, None, {}
         if faked:
             w.flags.add("replayed")
             if oblig:
                 exp_kind, exp_body = "replay", m.prev["body"]
         else:
-            exp_kind, exp_body, ctx = self._simulator_answers(w, flow, sim, swallow)
+            exp_kind, exp_body, ctx = self._simulator_answers(w, flow, sim, swallow, r)
         m.inj_since_poll = 0
         # proxy sees the response (mitmproxy's response hook), then hands it back
         if env.mitm_response(flow):
@@ -399,7 +432,7 @@ class Harness:
             if act_body is not None:
                 self._bad(w, "undef-passthrough", SITE_RESP, f"simulator sent the no-events body, viewer was sent {content[:200]!r}")
         elif exp_kind == "events":
-            self._classify(w, ctx, exp_body, act_body, content)
+            self._classify(w, ctx, exp_body, act_body, content, r)
         # ---- reference model: what this poll's answer was, for the next round's replay obligation
         if exp_kind is not None:
             m.prev = {"ack": ack, "body": exp_body if exp_kind in ("replay", "events") else None}
@@ -417,9 +450,9 @@ class Harness:
         w.last_obs = ("poll", status, faked, n_ev, exp_kind, bool(resp.headers.get("X-Hippo-Fake-EQ")), delivery,
                       len(w.session.regions))
 
-    def _simulator_answers(self, w: World, flow, sim: str, swallow: str):
+    def _simulator_answers(self, w: World, flow, sim: str, swallow: str, r: int):
         """The simulator is asked: build its answer, put it on the flow, return the model's prediction."""
-        m, env = w.m, w.env
+        g, m, env = w.m, w.rm[r], w.env
         if sim in STATUS_BODIES:
             st, body, ctype = STATUS_BODIES[sim]
             env.set_response(flow, st, body, {"Content-Type": ctype})
@@ -430,13 +463,13 @@ class Harness:
         rid = m.next_id
         m.next_id += 1
         kinds = SIM_MENU[sim]
-        events = [wire_event(k, rid * 10 + i) for i, k in enumerate(kinds)]
+        events = [wire_event(k, (r * 1000 + rid) * 10 + i) for i, k in enumerate(kinds)]
         env.set_response(flow, 200, llsd.format_xml({"id": rid, "events": events}), {"Content-Type": "application/llsd+xml"})
         w.addon.arm(swallow)
         swallowed = [i for i in range(len(kinds)) if swallow == "all" or (swallow == "first" and i == 0)]
         keys = [wire_norm(e) for e in events]
         for k in keys:
-            m.ever[k] = "sim"
+            g.ever[k] = ("sim", r)
         kept = [keys[i] for i in range(len(kinds)) if i not in swallowed]
         inj = [wire_norm(injected_wire(kind, tag)) for tag, kind in m.pending]
         out = kept + inj
@@ -444,11 +477,11 @@ class Harness:
             if k in ANNOUNCE:
                 _, addr, handle, seed = ANNOUNCE[k]
                 if i in swallowed:
-                    if addr not in m.regions:
-                        m.vetoed_only.add(addr)
+                    if addr not in g.regions:
+                        g.vetoed_only.add(addr)
                     continue
-                m.vetoed_only.discard(addr)
-                ent = m.regions.setdefault(addr, [None, None])
+                g.vetoed_only.discard(addr)
+                ent = g.regions.setdefault(addr, [None, None])
                 if handle is not None:
                     ent[0] = handle
                 if seed is not None:
@@ -466,13 +499,19 @@ class Harness:
             return "events", None, ctx
         return "events", ("map", ("events", ("arr",) + tuple(out)), ("id", ("int", rid))), ctx
 
-    def _classify(self, w: World, ctx, exp_body, act_body, content: bytes):
-        m = w.m
+    def _classify(self, w: World, ctx, exp_body, act_body, content: bytes, r: int):
+        g, m = w.m, w.rm[r]
         kept, inj, swallowed = ctx["kept"], ctx["inj"], ctx["swallowed"]
         if exp_body is None:
             if act_body is not None:
-                self._bad(w, "emptied-not-undef", SITE_UNDEF,
-                          f"every event was swallowed and nothing injected, viewer was sent {content[:200]!r} instead of undef")
+                foreign = [e for e in (act_body.get("events") or []) if g.ever.get(norm(e), (None, r))[1] != r] \
+                    if isinstance(act_body, dict) else []
+                if foreign:
+                    self._bad(w, "event-in-other-regions-response", SITE_INJ,
+                              f"region {r}'s response carries an event that belongs to another region: {norm(foreign[0])[1:3]!r}")
+                else:
+                    self._bad(w, "emptied-not-undef", SITE_UNDEF,
+                              f"every event was swallowed and nothing injected, viewer was sent {content[:200]!r} instead of undef")
             return
         if act_body is None:
             if kept:
@@ -507,8 +546,11 @@ class Harness:
                 self._bad(w, "swallowed-event-delivered", SITE_FILTER, f"addon returned True for {a[1:3]!r} but the viewer was sent it")
         for a in set(act):
             if act.count(a) > exp.count(a) and a not in swallowed:
-                cat = m.ever.get(a)
-                if cat == "sim":
+                cat, owner = g.ever.get(a, (None, None))
+                if cat is not None and owner != r:
+                    self._bad(w, "event-in-other-regions-response", SITE_INJ if cat == "inj" else SITE_RESP,
+                              f"region {r}'s response carries {a[1:3]!r}, which was {'injected into' if cat == 'inj' else 'sent by'} region {owner}")
+                elif cat == "sim":
                     self._bad(w, "sim-event-duplicated", SITE_RESP, f"event {a[1:3]!r} sent {act.count(a)}x, expected {exp.count(a)}x")
                 elif cat == "inj":
                     self._bad(w, "injected-duplicated", SITE_INJ, f"injected {a[1:3]!r} sent {act.count(a)}x, expected {exp.count(a)}x")
@@ -519,7 +561,8 @@ class Harness:
                 self._bad(w, "sim-event-lost", SITE_RESP, f"simulator event {e[1:3]!r} missing from the body sent to the viewer")
         for e in set(inj):
             if act.count(e) < inj.count(e):
-                self._bad(w, "injected-not-delivered", SITE_INJ, f"injected event {e[1:3]!r} missing from the first response carrying events")
+                self._bad(w, "injected-not-delivered", SITE_INJ,
+                          f"region {r}: injected event {e[1:3]!r} missing from the first response carrying events")
         if sorted(act) == sorted(exp):
             # same multiset: the statement orders simulator events among themselves and (FIFO) injected events among
             # themselves; where injected events sit relative to simulator events is not prescribed
